@@ -226,6 +226,14 @@ where
 
         {
             let mut guard = self.group.write();
+
+            // Another task may have created the keyspace while this state was being
+            // spawned. There must only ever be one state per keyspace, otherwise the
+            // operations applied to the replaced state are lost.
+            if let Some(existing) = guard.get(&name) {
+                return existing.clone();
+            }
+
             guard.insert(name.clone(), state.clone());
         }
 
